@@ -145,6 +145,11 @@ SYSDEFS = [
     dict(name='yz-onlyO-neg', L=(3.0, 4.0, 5.0), tilt=(0.0, 0.0, -0.8), origin=(10.0, 20.5, -30.25),
          rel=[[0.31, 0.47, 0.62], [0.9, 0.1, -1.2], [0.0, 0.0, 0.0], [1.0, 1.0, 1.0]],
          atype=[2, 1, 1, 2], symbols=('Ni', 'Al'), props='full'),
+    # xy and xz of the SAME sign: only then does the xy+xz term of the dump-file bounding box matter
+    dict(name='tri0-xy-xz-positive', L=(6.0, 5.0, 4.0), tilt=(0.8, 1.3, -0.6), origin=(0.0, 0.0, 0.0),
+         rel=_REL4[:3], atype=[1, 2, 1], symbols=None, props='none'),
+    dict(name='triO-xy-xz-negative', L=(5.5, 4.5, 6.5), tilt=(-0.9, -1.4, 0.7), origin=(2.5, -1.5, 0.75),
+         rel=[[0.31, 0.47, 0.62], [1.4, -0.3, 0.5], [0.0, 1.0, 0.25]], atype=[1, 1, 2], symbols=('Cu', 'Zr'), props='vel'),
 ]
 # pre-vetted generic slices; VERIF_SEED appends exactly one (thorough: all), each enumerated completely
 _SLICES = []
